@@ -24,7 +24,12 @@ IntPalette == <<-1, 0, 65, 55295, 55296, 57343, 57344, 1114111, 1114112>>
 P(k) == [k |-> "p", n |-> k]
 I(n) == [k |-> "int", n |-> n]
 C(c) == [k |-> "chr", n |-> c]
+\* exact integers beyond TLC's 32-bit range, by index into a table the harness shares (harness/src/pool.rs BIG):
+\* 2^32+97, 97-2^32, 2^40+97, 2^63+97, 2^32+0x1F436 -- all far outside the scalar values, their low 32 bits inside
+B(i) == [k |-> "big", n |-> i]
+NBig == 5
 ArgVal(d) == CASE d.k = "p" -> pool[d.n] [] d.k = "int" -> IntV(d.n) [] d.k = "chr" -> CharV(d.n)
+               [] d.k = "big" -> [t |-> "bigint", v |-> d.n]
 
 Render(v, h) == ValToDatum(v, h, 40, <<>>)
 
@@ -77,7 +82,7 @@ CandsOf(f) ==
                            s \in IdxFor(LenOf(pool[k])), e \in IdxFor(LenOf(pool[k]))} : k \in Slots}
     [] f = 11 -> {<<"make-string", <<I(n), c>>>> : n \in {-1, 0, 1, 3}, c \in Chars}
     [] f = 12 -> {<<"string", <<c, d>>>> : c \in Chars, d \in {C(97), C(128512)}}
-    [] f = 13 -> {<<"integer->char", <<i>>>> : i \in Ints}
+    [] f = 13 -> {<<"integer->char", <<i>>>> : i \in Ints \cup {B(i) : i \in 1..NBig}}
     [] f = 14 -> {<<o, <<c>>>> : o \in Chr1, c \in Chars}
     [] f = 15 -> {<<o, <<c, d>>>> : o \in ChrCmp, c \in Chars, d \in Chars}
     [] f = 16 -> {<<"char<?", <<c, d, e>>>> : c \in {C(97), C(233)}, d \in Chars, e \in {C(122), C(128512)}}
@@ -90,7 +95,9 @@ SimFamilies == <<1, 2, 3, 4, 4, 5, 5, 5, 6, 7, 7, 8, 9, 9, 10, 10, 11, 12, 13, 1
 SimCands == CandsOf(SimFamilies[RandomElement(1..Len(SimFamilies))])
 
 Outcome(op, av) ==
-  IF op = "string-copy0" THEN Prim("string-copy", av, hp) ELSE Prim(op, av, hp)
+  IF op = "string-copy0" THEN Prim("string-copy", av, hp)
+  ELSE IF op = "integer->char" /\ Len(av) = 1 /\ av[1].t = "bigint" THEN Err("range")     \* not a scalar value
+  ELSE Prim(op, av, hp)
 
 Apply(op, a, dst) ==
   LET av == [i \in 1..Len(a) |-> ArgVal(a[i])]
